@@ -145,7 +145,7 @@ func ovFixture(fams [][]int) string {
 			continue // methods cannot have type parameters
 		}
 		if ovOpFamily(f) {
-			fmt.Fprintf(&b, "type O%s struct{}\n", n)
+			fmt.Fprintf(&b, "type O%s float64\n", n) // a defined type over a basic type: the builtin + would accept what every candidate rejects
 			// (methods are declared in reverse index order: the order of a family is the order of its indices, not of its declarations)
 			for i := len(f) - 1; i >= 0; i-- {
 				s := f[i]
@@ -273,6 +273,7 @@ var ovResText = map[string]string{"int": "int", "float64": "float64", "string": 
 // ---------- G: the real builder ----------
 
 type ovWorld struct {
+	nbody int
 	pkg   *gogen.Package
 	ov    gogen.PkgRef
 	errs  []string
@@ -399,7 +400,8 @@ func (w *ovWorld) call(p ovPoint, kind string, pre ...*ovPoint) (g ovG, applicab
 	applicable = true
 	w.errs = nil
 	if w.fn == nil {
-		w.fn = pkg.NewFunc(nil, "body", nil, nil, false)
+		w.nbody++ // (a fresh name: after a fault the body is abandoned and another one is opened)
+		w.fn = pkg.NewFunc(nil, fmt.Sprintf("body%d", w.nbody), nil, nil, false)
 		w.fn.BodyStart(pkg)
 	}
 	cb := pkg.CB()
